@@ -134,7 +134,11 @@ UpdateTTL(k) ==
 
 ---------------------------------------------------------------------------
 (* compaction.go *)
-OverThreshold(t) == t.garbage * 100 >= T * 40
+\* a table is compacted when its garbage reaches 40 % - of the table size for the table that accepts the writes, of the part
+\* in use (live and dead bytes) for a sealed one (repaired D29: a table sealed nearly empty never reached 40 % of its size)
+OverThresholdAt(ts, j) == LET t == ts[j]
+                              size == IF j = Len(ts) THEN T ELSE t.inuse + t.garbage IN
+                          t.garbage > 0 /\ t.garbage * 100 >= size * 40
 ResetTable(t) == [t EXCEPT !.idx = EmptyFn, !.state = "rec", !.inuse = 0, !.garbage = 0, !.offset = 0, !.cf = 0]
 
 \* evictTable: re-insert (PutRaw through the store, which allocates tables itself) the live
@@ -152,7 +156,7 @@ Evict(ts, cf, reg, c, order, n) ==
       ts2 == [ts1 EXCEPT ![jj] = IF k \in DOMAIN ts1[jj].idx THEN TableDelete(ts1[jj], k) ELSE ts1[jj]]
   IN Evict(ts2, r[2], r[3], c, Tail(order), n - 1)
 
-Candidates == {j \in 1..Len(tabs) : OverThreshold(tabs[j]) /\ tabs[j].state # "rec"}
+Candidates == {j \in 1..Len(tabs) : OverThresholdAt(tabs, j) /\ tabs[j].state # "rec"}
 Recycled(ts) == {j \in 1..Len(ts) : ts[j].state = "rec"}
 
 \* removal of expired recycled tables (second loop of Compaction): with the idle timeout at
@@ -274,13 +278,15 @@ NumLive == Cardinality({j \in 1..Len(tabs) : tabs[j].state # "rec"})
 Compacted == Candidates = {}
 BoundedAfterCompaction ==
   Compacted => (NumLive * T) * 60 <= 100 * (LiveBytes + 2 * T + NumLive * Max(Sizes))
+\* C20: once compaction is complete no sealed table is left without a live entry
+NoDeadTables == Compacted => \A j \in 1..(Len(tabs) - 1) : tabs[j].state # "rec" => DOMAIN tabs[j].idx # {}
 \* C11: compaction never changes the contents
 CompactionSafe == [][ref' = ref /\ dst' = dst /\ ver' = ver =>
                       \A k \in Keys : Lookup(tabs', k) = Lookup(tabs, k)]_vars
 \* C11/C20: compaction reaches completion in a bounded number of steps - every step that finds
 \* a table over the threshold strictly decreases (number of such tables, live entries of the first)
 MaxEntries == (T \div Min(Sizes)) + 1
-Measure(ts) == LET C == {j \in 1..Len(ts) : OverThreshold(ts[j]) /\ ts[j].state # "rec"} IN
+Measure(ts) == LET C == {j \in 1..Len(ts) : OverThresholdAt(ts, j) /\ ts[j].state # "rec"} IN
                IF C = {} THEN 0 ELSE Cardinality(C) * (MaxEntries + 1) + Cardinality(DOMAIN ts[Min(C)].idx)
 IsCompact == Len(log') = Len(log) + 1 /\ log'[Len(log')].op = "compact"
 CompactionProgress == [][(Candidates # {} /\ IsCompact)
